@@ -17,7 +17,7 @@ sys.path.insert(0, os.path.join(VERIF, 'tools'))
 
 BOUNDARY = {
     'C01': 'modelled: `query_execute.execute_select` row loop (FROM filter, WHERE, target evaluation), `EvalAnd/Or/Not/Coalesce`, the operator classes of `query_compile.py`, ~90 functions of `query_env.py`.  Not modelled: regular expressions beyond literal patterns, NaN / Infinity.',
-    'C02': 'modelled: `execute_select` aggregation branch (allocator, `initialize` / `update` / `finalize`, the dict store keyed by the GROUP BY tuple, HAVING) and the aggregators count, sum, first, last, min, max.  dict insertion order and tuple hashing of int / bool / Decimal are modelled by `eqKey`.',
+    'C02': 'modelled: `execute_select` aggregation branch (allocator, `initialize` / `update` / `finalize`, the dict store keyed by the GROUP BY tuple, HAVING) and the aggregators count, sum, first, last, min, max.  dict insertion order and tuple hashing of int / bool / Decimal are modelled by `eqKey`.  Values that are themselves tuples (amounts, positions, costs) are not values of the model: grouping by them is checked on the implementation against a fold written in the harness (an oracle, not the model).',
     'C03': 'modelled: `execute_select` ORDER BY (`nullitemgetter`, one `list.sort` per run of equal direction, `reversed(order_spec)`), DISTINCT (`uses_distinct`), LIMIT.  `list.sort` stability and Python ordering across types are assumptions of the model (`sortable` = where Python raises TypeError).',
     'C04': 'modelled: the overload tables of every operator (generated), the semantic functions, `types.function_lookup` with MRO, implicit casts of `_binaryop`.  The type oracle runs on the implementation: the Python type of every fetched cell against the announced datatype.',
     'C05': 'modelled: `Compiler._compile_*` validation rules and `Compiler.compile` parameter checks; the parser is covered by C06.  Exceptions raised while folding an out-of-domain constant are function-domain errors (C18).',
@@ -25,7 +25,7 @@ BOUNDARY = {
     'C07': 'modelled: `get_target_name`, wildcard expansion, `_compile_group_by` / `_compile_order_by` appending invisible targets, `result_indexes`.',
     'C08': 'modelled: `SubqueryTable`, `EvalConstantSubquery1D` (IN / NOT IN over a materialised one-column subquery, empty result = NULL), `_compile_from` for subqueries (table scoping after the repair).',
     'C09': 'modelled: placeholder collection and numbering in `Compiler.compile` (old and repaired), `_placeholder`, constant folding of pure nodes; the model is pure, so "never mutates the source" is checked by deep snapshots.',
-    'C10': 'modelled: `cursor.Cursor` (execute, fetchone, fetchmany, fetchall, iteration, arraysize, rowcount, rownumber, description) and `Column` as a 7-item sequence.',
+    'C10': 'modelled: `cursor.Cursor` (execute, fetchone, fetchmany, fetchall, iteration - also by an iterator kept across other calls (`heldNext`) -, arraysize, rowcount, rownumber, description) and `Column` as a 7-item sequence.',
     'C11': 'modelled: the row structure of every table of `sources/beancount.py` / `query_env.py`, `other_accounts`, the metadata lookups; column *values* are Beancount attributes compared cell by cell with a direct traversal of the loaded directives (`id`, `weight`, `position` by a direct call).',
     'C12': 'modelled: Beancount `Inventory.add_amount` with strict lot keys, `reduce`, the `balance` column with its per-scan guard.  Exact arithmetic domain (28 digits).  `value` / `convert` use Beancount\'s price map: checked as identities on the implementation.',
     'C13': 'modelled: `BeanTable.prepare` and Beancount\'s `summarize.open / close / clear`, `transfer_balances`, `create_entries_from_balances`, `balance_by_account`, `truncate` over transactions (other directives carry no postings), without price conversions.  Conversions entries, kept open / price directives are implementation-level only.',
@@ -33,12 +33,13 @@ BOUNDARY = {
     'C15': 'modelled: `execute_query` pivot branch (key collection, sorting, block placement), `_compile_pivot_by`.',
     'C16': 'modelled: `render_rows`, `render_text`, `render_csv` layout, the bool / int / str / date / decimal / set renderers.  Amount / position / cost / inventory cell formatters are checked by oracles on the rendered output (alignment, read-back at display precision).',
     'C17': 'modelled: `numberify_results` and its converters (identity, amount, position, inventory), the currency census and its ordering.',
-    'C18': 'modelled: the date, account, string, numeric and cast functions of `query_env.py` with CPython `datetime`, `relativedelta`, `str`, `decimal` and `textwrap.shorten` (maxwidth; texts without hyphens) semantics.',
+    'C18': 'modelled: the date, account, string, numeric and cast functions of `query_env.py` with CPython `datetime`, `relativedelta`, `str`, `decimal` and `textwrap.shorten` (maxwidth; texts without hyphens) semantics; grep / grepn / subst / findfirst for literal patterns only.',
     'C19': 'modelled: `shell.Settings` (typed fields, `setstr` / `getstr`), `DispatchingShell.default` / `onecmd` dispatch, `BQLShell.parse` default close.  The rendering of results is C16; the CLI options are checked by running the entry point.',
     'C20': 'modelled: each execution as a state machine over private state; the old process-wide cache as shared state.  Interleaving granularity of the harness: yield-function boundaries (`vp_yield`) in row evaluation, aggregate output and HAVING, not bytecodes.',
 }
 
 FALSE_ALARMS = [
+    ('C08/C09', 'harness', 'found by the multi-seed sweeps on the unchanged tree (as `VIOLATION ... no-failing-input-found`, harness exception): a pure aggregate over an empty selection returns no row, which the harness indexed; a per-row parameter taken from a column with NULLs made a statement the compiler rightly rejects (`int <= NULL`).  Both harness layers were corrected; every layer added since is run with seeds 1..7 on the unchanged tree before it is committed'),
     ('C01/C18', 'model', '`round(decimal)` returns a Decimal, `int(" 1")` strips white space, `date("2020-1-2")` accepts unpadded fields (strptime), an inventory quantised to zero is NULL: the model was corrected, the code was right'),
     ('C03', 'model', 'the first sort model inserted before equal elements (unstable); corrected to insert after them'),
     ('C04', 'oracle', 'the "accepted query must not raise" oracle counted every exception; restricted to TypeError / AttributeError (the classes the property excludes); other classes belong to C18\'s function domains'),
